@@ -113,7 +113,7 @@ def part_image(s):
     Fg = [pg["ap.aero_states.s%d_sec_forces" % k] for k in range(n)]
     Ff = [pf["ap.aero_states.s%d_sec_forces" % k] for k in range(n)]
     Fi = [pi["ap.aero_states.s%d_sec_forces" % k] for k in range(n)]
-    sc = max(np.abs(F).max() for F in Fg + [np.ones(1) * 1e-300])
+    sc = max(max(np.abs(F).max() for F in Fg), gen.force_floor(1.1, 50.0, meshes))
     wh = dict(nsurf=n, side=s["surfs"][0]["side"])
     for k in range(n):
         validated += 2
@@ -154,7 +154,7 @@ def part_ladder(s):
     pf = aero(meshes, alpha)
     base = np.array([pf["ap.CL"][0], pf["ap.CD"][0], pf["ap.CM"][1]])
     Fb = np.concatenate([pf["ap.aero_states.s%d_sec_forces" % k].ravel() for k in range(len(meshes))])
-    sc = max(np.abs(Fb).max(), 1e-300)
+    sc = max(np.abs(Fb).max(), gen.force_floor(1.1, 50.0, meshes))
     deltas, dF = [], []
     for r in LADDER:
         pg = aero(meshes, alpha, True, r * SPAN)
